@@ -25,7 +25,24 @@ def build(race=False):
     return common.go_build_test("pipedrv", race=race)
 
 
-def run_schedules(binp, scheds, d, tag="s", timeout=1800, env=None):
+def run_schedules(binp, scheds, d, tag="s", timeout=1800, env=None, shards=None):
+    """Shards the schedules over several harness processes (each schedule runs in its own synctest bubble)."""
+    from concurrent.futures import ThreadPoolExecutor
+    n = shards or max(1, min(common.NCPU // 2, len(scheds) // 150 + 1))
+    if n == 1:
+        return _run_schedules(binp, scheds, d, tag, timeout, env)
+    parts = [scheds[i::n] for i in range(n)]
+    with ThreadPoolExecutor(n) as ex:
+        res = list(ex.map(lambda a: _run_schedules(binp, a[1], d, "%s_%d" % (tag, a[0]), timeout, env), enumerate(parts)))
+    out = [None] * len(scheds)
+    for i, part in enumerate(res):
+        for j, t in enumerate(part):
+            t["id"] = i + j * n
+            out[i + j * n] = t
+    return out
+
+
+def _run_schedules(binp, scheds, d, tag="s", timeout=1800, env=None):
     """Executes the schedules; a crash of the harness process is attributed to the schedule that was running
     (trace with crash=True and whatever windows were flushed ... none: the process died) and the run goes on."""
     inp = os.path.join(d, tag + "_in.jsonl")
@@ -115,10 +132,22 @@ CHECK_DEADLOCK FALSE
 """
 
 
-def judge(traces, d, tag="j", chunk=400):
-    """TRACE-P: returns (list of (trace_index, window, [predicates]), TLC results)."""
+def judge(traces, d, tag="j", chunk=300):
+    """TRACE-P: returns (list of (trace_index, window, [predicates]), TLC results).  Chunks are judged concurrently."""
+    from concurrent.futures import ThreadPoolExecutor
+    starts = list(range(0, len(traces), chunk))
+    with ThreadPoolExecutor(4) as ex:
+        parts = list(ex.map(lambda c0: _judge_chunk(traces, d, tag, chunk, c0), starts))
     viols, results = [], []
-    for c0 in range(0, len(traces), chunk):
+    for v, r in parts:
+        viols += v
+        results.append(r)
+    return viols, results
+
+
+def _judge_chunk(traces, d, tag, chunk, c0):
+    viols = []
+    if True:
         part = traces[c0:c0 + chunk]
         slim = [{"cfg": t["cfg"], "outs": t["outs"], "nin": t["nin"], "wins": t["wins"], "crash": bool(t.get("crash"))} for t in part]
         # a crashed schedule has no outs recorded: give it the names its kind has
@@ -128,7 +157,7 @@ def judge(traces, d, tag="j", chunk=400):
         tf = os.path.join(d, "%s_batch_%d.json" % (tag, c0))
         with open(tf, "w") as f:
             json.dump({"traces": slim}, f)
-        r = run_tlc("PipeTraceP", TRACEP_CFG, env={"TRACE_FILE": tf}, timeout=1800)
+        r = run_tlc("PipeTraceP", TRACEP_CFG, env={"TRACE_FILE": tf}, timeout=1800, workers=4)
         if r.violated:
             raise Infra("PipeTraceP stopped: " + r.out[-3000:])
         done = set()
@@ -139,8 +168,7 @@ def judge(traces, d, tag="j", chunk=400):
                 viols.append((c0 + v["ti"] - 1, v["w"], sorted(v["preds"])))
         if len(done) != len(part):
             raise Infra("PipeTraceP consumed %d of %d traces\n%s" % (len(done), len(part), r.out[-2000:]))
-        results.append(r)
-    return viols, results
+        return viols, r
 
 
 def outs_of(cfg):
